@@ -7,7 +7,7 @@ from ..fix import fix
 LEVEL = "exploration"
 
 RULE = ("TraceKernel.tla is a law table evaluated by TLC on recorded evaluation grids (17x17 lattice points z = t/8, t in -80..80, i.e. to 10 "
-        "standard deviations; means (0,0) and (3,-2); variances (1,1), (1/4,4), (1e-4,1e4), (4,1)). Per correlation rho and its negative: "
+        "standard deviations; means (0,0) and (3,-2); variances (1,1), (1/4,4), (1e-4,1e4), (1e-8,4e-8), (4,1), (1e-12,1e-12)). Per correlation rho and its negative: "
         "range [0,1], monotone in each argument, rectangle mass >= -1e-7, tails 0/1, both marginals = Phi table, value at the mean = "
         "1/4 + asin(rho)/(2 pi) at rho in {sin(pi/12), 1/2, sqrt2/2, sqrt3/2, sin(5pi/12)} (one in every branch of the algorithm incl. "
         ">= 0.925), reflection identity F(h,k;rho)+F(h,-k;-rho) = Phi(h); seams: the two sides of every branch threshold (0.3, 0.75, 0.925, "
@@ -18,7 +18,7 @@ TS = [-80, -40, -24, -16, -8, -4, -2, -1, 0, 1, 2, 4, 8, 16, 24, 40, 80]
 ANCH = {"sin(pi/12)": (math.sin(math.pi / 12), (1, 24)), "1/2": (0.5, (1, 12)), "sqrt2/2": (math.sqrt(2) / 2, (1, 8)),
         "sqrt3/2": (math.sqrt(3) / 2, (1, 6)), "sin(5pi/12)": (math.sin(5 * math.pi / 12), (5, 24))}
 OTHER = [0.1, 0.29, 0.31, 0.6, 0.74, 0.76, 0.9, 0.92, 0.93, 0.95, 0.99, 0.999]
-VARS = [(1.0, 1.0), (0.25, 4.0), (1e-4, 1e4), (4.0, 1.0)]
+VARS = [(1.0, 1.0), (0.25, 4.0), (1e-4, 1e4), (1e-8, 4e-8), (4.0, 1.0), (1e-12, 1e-12)]
 MUS = [(0.0, 0.0), (3.0, -2.0)]
 
 
@@ -48,8 +48,8 @@ def run(ctx):
         return dict(kind="bvn", ts=TS, mu=list(mu), vx=v[0], vy=v[1], rho=rho)
     rhos = [(n, r0, a) for n, (r0, a) in ANCH.items()] + [(str(r0), r0, (0, 0)) for r0 in (OTHER if not quick else OTHER[::2] + [0.93])]
     for name, rho, anc in rhos:
-        for vi, v in enumerate(VARS if not quick else VARS[:3]):
-            mu = MUS[(vi + len(name)) % 2]
+        for vi, v in enumerate(VARS if not quick else VARS[:4]):
+            mu = MUS[(vi + len(name)) % 2] if min(v) >= 1e-4 else MUS[0]   # a non-zero mean with a tiny sd would put x - mu off the lattice by cancellation
             meta.append(("grid", name, anc, mu, v, len(jobs)))
             jobs += [bvn(rho, mu, v), bvn(-rho, mu, v)]
     eps = 1e-6
@@ -61,7 +61,7 @@ def run(ctx):
     meta.append(("limit", 1 - 1e-6, None, MUS[0], VARS[0], len(jobs)))
     jobs.append(bvn(1 - 1e-6, MUS[0], VARS[0]))
     for v in VARS:
-        for mu in MUS:
+        for mu in (MUS if min(v) >= 1e-4 else MUS[:1]):
             meta.append(("product", 0.0, None, mu, v, len(jobs)))
             jobs.append(dict(kind="product", ts=TS, mu=list(mu), vx=v[0], vy=v[1]))
     upts = []
